@@ -67,6 +67,11 @@ def main():
         mod.run(res, tier, have_driver)
     except Exception:
         res.harness_errors.append(traceback.format_exc())
+    try:
+        import findings_probe
+        findings_probe.run(pid, res)
+    except Exception:
+        res.harness_errors.append(traceback.format_exc())
     search_more = getattr(mod, 'search_more', None)
     sm = (lambda: search_more(res, tier)) if search_more else None
     return common.finish(pid, tier, res, build_ok, build_log, audit_bad, thms, axioms, t0,
